@@ -4,7 +4,7 @@
    the configured ranges), bfe_server.setClientAddr, mod_header.setDefaultHeader, on the header map parsed from the
    client's header lines [pairs]. *)
 From Coq Require Import List ZArith Bool.
-From Bfe Require Import lib.Val lib.Bytes model.HopByHop model.ClientAddr proofs.ClientAddrProofs run.RunC29
+From Bfe Require Import lib.Val lib.Bytes gen.HopHeaders model.HopByHop model.ClientAddr proofs.ClientAddrProofs run.RunC29
      proofs.ClientAddrRunProofs.
 Import ListNotations.
 Open Scope Z_scope.
@@ -13,9 +13,9 @@ Open Scope Z_scope.
    address BFE uses (req.ClientAddr: conditions, balancing, logging) is the peer's socket address, and X-Real-Ip /
    X-Real-Port sent upstream are exactly the peer's ip text and port - whatever X-Real-Ip, X-Real-Port,
    X-Forwarded-For, X-Forwarded-Port the request carries (they are overwritten, duplicates included). *)
-Theorem C29_untrusted_uses_peer : forall parse table peer pairs,
+Theorem C29_untrusted_uses_peer : forall parse host local table peer pairs,
   trusted table (a_ip peer) = false ->
-  let r := process parse table peer pairs in
+  let r := process parse host local table peer pairs in
   r_trusted r = false /\ r_caddr r = Some peer /\
   values_of s_xrip (r_headers r) = [a_text peer] /\
   values_of s_xrport (r_headers r) = [dec_of_Z (a_port peer)].
@@ -24,9 +24,9 @@ Print Assumptions C29_untrusted_uses_peer.
 
 (* Trusted or not: X-Forwarded-For sent upstream is a single field whose last comma-separated element is the peer's ip
    (the ip text contains neither a comma nor a blank, as every net.IP.String() does). *)
-Theorem C29_xff_ends_with_peer : forall parse table peer pairs,
+Theorem C29_xff_ends_with_peer : forall parse host local table peer pairs,
   ip_text_ok (a_text peer) = true ->
-  exists v, values_of s_xff (r_headers (process parse table peer pairs)) = [v] /\ last_elem v = a_text peer.
+  exists v, values_of s_xff (r_headers (process parse host local table peer pairs)) = [v] /\ last_elem v = a_text peer.
 Proof. exact xff_ends_with_peer. Qed.
 Print Assumptions C29_xff_ends_with_peer.
 
@@ -34,24 +34,39 @@ Print Assumptions C29_xff_ends_with_peer.
    empty (then the port text is the first X-Real-Port value), otherwise the first elements of X-Forwarded-For and
    X-Forwarded-Port; when the text is a valid ip, ClientAddr is that ip with the port (0 when the port text is not a
    number), and X-Real-Ip / X-Real-Port upstream are rewritten to their canonical texts. *)
-Theorem C29_trusted_honours : forall parse table peer pairs cip cport ip text,
+Theorem C29_trusted_honours : forall parse host local table peer pairs cip cport ip text,
   trusted table (a_ip peer) = true ->
   header_candidate (hdel s_host (parse_headers pairs)) = (cip, cport) ->
   cip <> [] -> parse cip = Some (ip, text) ->
-  let r := process parse table peer pairs in
+  let r := process parse host local table peer pairs in
   let port := match atoi cport with Some p => p | None => 0 end in
   r_trusted r = true /\ r_caddr r = Some (mk_addr ip text port) /\
   values_of s_xrip (r_headers r) = [text] /\ values_of s_xrport (r_headers r) = [dec_of_Z port].
 Proof. exact trusted_honours. Qed.
 Print Assumptions C29_trusted_honours.
 
+(* X-Bfe-Ip upstream is the local address of the client connection, whatever X-Bfe-Ip the client sent. *)
+Theorem C29_bfe_ip_overwritten : forall parse host local table peer pairs,
+  values_of s_xbfeip (r_headers (process parse host local table peer pairs)) = [local].
+Proof. exact bfe_ip_overwritten. Qed.
+Print Assumptions C29_bfe_ip_overwritten.
+
 (* Remark: a trusted peer that sends no address header leaves ClientAddr nil (no X-Real-Ip is added upstream). *)
-Theorem C29_trusted_without_headers_nil : forall parse table peer pairs,
+Theorem C29_trusted_without_headers_nil : forall parse host local table peer pairs,
   trusted table (a_ip peer) = true ->
   fst (header_candidate (hdel s_host (parse_headers pairs))) = [] ->
-  r_caddr (process parse table peer pairs) = None.
+  r_caddr (process parse host local table peer pairs) = None.
 Proof. exact trusted_without_headers_nil. Qed.
 Print Assumptions C29_trusted_without_headers_nil.
+
+(* What mod_header wrote is what the backend receives: X-Forwarded-For, X-Real-Ip, X-Real-Port and X-Forwarded-Port pass
+   the reverse proxy's hop-by-hop stage (hopByHopHeaderRemove over the generated HopHeaders list + the write-exclude
+   filter, C26's model) unchanged, for EVERY header map - whatever Connection header the client sent.  (A proxy that
+   acted on Connection tokens at that stage would let "Connection: X-Real-Ip" strip the peer's address; the harness
+   sends such requests and prop_C29 requires the fields to be present at the backend.) *)
+Theorem C29_upstream_survives : forall k m, In k addr_keys -> values_of k (to_backend m) = values_of k m.
+Proof. exact upstream_survives. Qed.
+Print Assumptions C29_upstream_survives.
 
 (* End to end through the wire functions the harness evaluates on the real server: for EVERY input whose peer address
    text contains neither comma nor blank (wf_C29), the model's observation satisfies the executable property prop_C29
@@ -62,18 +77,19 @@ Theorem C29_prop_of_model : forall i, wf_C29 i = true -> prop_C29 i (run_C29 i) 
 Proof. exact prop_C29_of_model. Qed.
 Print Assumptions C29_prop_of_model.
 
+(* the corpus case wf-example (corpus/C29/conn-nominated.case) *)
 Example C29_prop_of_model_nonvacuous :
   wf_C29 ex_wire = true /\
   run_C29 ex_wire = VL [VZ 1; VL [VB [0;0;0;0;0;0;0;0;0;0;255;255;1;2;3;4]; VZ 0];
                         VL [VB [49;50;55;46;48;46;48;46;50]]; VL [VB [49;46;50;46;51;46;52]]; VL [VB [48]];
-                        VL [VB [52;48;48;48;48]]].
+                        VL [VB [52;48;48;48;48]]; VL [VB host_C29]; VL [VB [49;50;55;46;48;46;48;46;49]]].
 Proof. exact ex_wire_ok. Qed.
 
 (* Non-vacuity: peer 203.0.113.9:40000 sending "x-real-ip: 1.2.3.4", "X-Real-Port: 80", "X-Forwarded-For: 6.6.6.6,
    7.7.7.7"; untrusted under the table 10.0.0.0-10.255.255.255, trusted under 203.0.113.0-203.0.113.255. *)
 Example C29_untrusted_example :
   trusted ex_table (a_ip ex_peer) = false /\ ip_text_ok (a_text ex_peer) = true /\
-  let r := process ex_parse ex_table ex_peer ex_hdrs in
+  let r := process ex_parse [] [] ex_table ex_peer ex_hdrs in
   r_caddr r = Some ex_peer /\
   values_of s_xff (r_headers r) = [[54;46;54;46;54;46;54;44;32;55;46;55;46;55;46;55;44;32] ++ a_text ex_peer].
 Proof. exact untrusted_example. Qed.
@@ -81,6 +97,6 @@ Example C29_trusted_example :
   trusted ex_table_t (a_ip ex_peer) = true /\
   header_candidate (hdel s_host (parse_headers ex_hdrs)) = ([49;46;50;46;51;46;52], [56;48]) /\
   ex_parse [49;46;50;46;51;46;52] = Some ([0;0;0;0;0;0;0;0;0;0;255;255;1;2;3;4], [49;46;50;46;51;46;52]) /\
-  r_caddr (process ex_parse ex_table_t ex_peer ex_hdrs) =
+  r_caddr (process ex_parse [] [] ex_table_t ex_peer ex_hdrs) =
     Some (mk_addr [0;0;0;0;0;0;0;0;0;0;255;255;1;2;3;4] [49;46;50;46;51;46;52] 80).
 Proof. exact trusted_example. Qed.
